@@ -31,7 +31,7 @@ class Harness:
         self.tier = "quick"
         self.variant = "base"
         self.timeout = 600
-        self.mem_gb = 10
+        self.mem_gb = 6
         self.stubbing = False
         self.expect = "pass"
         self.role = "deciding"
